@@ -37,6 +37,24 @@ def run(R):
     tb = R.crate('tonic_build')
     services = gen.collect(R)
 
+    # ---------------------------------------------------------------- R6 the checked-in sources are what the generator writes today (transport twin)
+    R.describe('C11.R6', 'the `codegen` crate builds tonic-build without its `transport` feature: in that configuration generate_connect emits nothing, and the checked-in generated clients (health, reflection) have no connect() constructor — the cfg twin of generate_connect has not been merged away')
+    with R.guard('C11.R6'):
+        import extract
+        tbn = R.crate('tonic_build', 'build_notransport', extract.CONFIGS['build_notransport'])
+        gc = tbn.body('tonic_build::client::generate_connect')
+        R.saw(gc)
+        emits = [t_.get('fn') for bb_, t_ in gc.calls() if 'quote::' in (t_.get('fn') or '') or (t_.get('name') in ('parse', 'extend', 'append', 'push_ident', 'push_group', 'to_tokens'))]
+        news = gc.calls(pat='TokenStream', name='new')
+        R.check(not emits and len(news) >= 1, 'C11.R6', 'no-transport:generate_connect-empty', site(gc), 'without the transport feature generate_connect returns an empty token stream whatever build_transport says: token-building calls %r' % sorted(set(x.split('::')[-1] for x in emits if x))[:6])
+        gct = tb.body('tonic_build::client::generate_connect')
+        emits_t = [1 for bb_, t_ in gct.calls() if 'quote::' in (t_.get('fn') or '')]
+        R.check(bool(emits_t), 'C11.R6', 'transport:generate_connect-emits', site(gct), 'with the transport feature the same function does emit connect() (positive control for the query above)')
+        for cn in ('tonic_health', 'tonic_reflection'):
+            cr_ = R.crate(cn)
+            cons_ = [b_.path for b_ in cr_.bodies if b_.kind == 'fn' and re.search(r'_client::\w+Client::<.*>::connect$', b_.path)]
+            R.check(not cons_, 'C11.R6', 'checked-in:%s:no-connect' % cn, '', 'connect() constructors in the checked-in generated client code of %s: %r' % (cn, cons_[:3]))
+
     # ---------------------------------------------------------------- R1 one formatter, same emit_package on both sides
     R.describe('C11.R1', 'tonic-build: every client leaf generator and the server method generator build the path with format_method_path(service, method, emit_package); both service-name uses call format_service_name; the prost ServiceGenerator plumbs builder.emit_package to both the client and the server code generators')
     with R.guard('C11.R1'):
